@@ -105,6 +105,7 @@ class Run:
         os.makedirs(self.data)
         self.contents = copy.deepcopy(history['contents'])
         self.dropped: set = set()
+        self.stats: collections.Counter = collections.Counter()
         for storage in self.contents:
             self.flush(storage)
         self.child: typing.Optional[boxmod.Child] = None
@@ -114,7 +115,6 @@ class Run:
         self.disk: dict = {}  # per home directory
         self.lazy: dict = {}  # per incarnation: table -> (rows snapshot, storage, version)
         self.version: collections.Counter = collections.Counter()
-        self.stats: collections.Counter = collections.Counter()
         self.known: dict[str, str] = {}
         self.findings = {f['id'] for f in base.open_findings(PROP)}
         self.events: list = []
@@ -145,7 +145,10 @@ class Run:
             return
         rows = {k: [tuple(r) for r in v] for k, v in self.contents[storage].items()}
         if kind.startswith('sql'):
-            feeds.write_sqlite(self.location(storage), rows, kind[3:])
+            self.nflush = getattr(self, 'nflush', 0) + 1
+            aside = random.Random(self.seed * 131 + self.nflush).random() < 0.4
+            self.stats['storage-republished-by-rename'] += aside
+            feeds.write_sqlite(self.location(storage), rows, kind[3:], aside=aside)
         elif kind == 'csv':
             feeds.write_csv(self.location(storage), rows)
 
